@@ -176,6 +176,20 @@ def _sources(ctx, idx, r, kind, n, rows, cols):
         mf = enhanced_multiframe(n, rows, cols, slice_spacing=r.choice([1.0, 0.5]), order=order)
         pos = [tuple(float(v) for v in p.PlanePositionSequence[0].ImagePositionPatient) for p in mf.PerFrameFunctionalGroupsSequence]
         return [mf], pos, 'PATIENT'
+    if kind in ('slide', 'slide-full'):
+        # n tiles of rows x cols out of a grid; TILED_SPARSE carries the positions, TILED_FULL implies them
+        gc = r.choice([1, 2, 3]) if kind == 'slide' else r.choice([g for g in (1, 2, 3) if n % g == 0])
+        gr = (n + gc - 1) // gc
+        omit = [(a, b) for a in range(gr) for b in range(gc)][n:] if kind == 'slide' else []
+        ds, _ = slide_image(gr * rows, gc * cols, rows, cols, tiled_full=(kind == 'slide-full'), omit=omit,
+                            frame_order=(order if kind == 'slide' and len(order) == gr * gc - len(omit) else None))
+        if kind == 'slide':
+            pos = [_pos_of_item(it, 'SLIDE') for it in ds.PerFrameFunctionalGroupsSequence]
+        else:
+            from highdicom.utils import compute_plane_position_slide_per_frame
+            pos = [_pos_of_item(type('I', (), {'PlanePositionSlideSequence': p})(), 'SLIDE')
+                   for p in compute_plane_position_slide_per_frame(ds)]
+        return [ds], pos, 'SLIDE'
     raise ValueError(kind)
 
 
@@ -234,7 +248,19 @@ def _pm_request(a, desc, nested, n_lists, pos, n_positions, ts, queries):
     return ('pm', {'kind': a.dtype.kind, 'name': a.dtype.name, 'dtype': str(a.dtype), 'itemsize': a.dtype.itemsize, 'ndim': nd,
                    'n': n, 'r': r, 'c': c, 'm': m, 'cells': cells, 'nested': nested, 'nMappingLists': n_lists,
                    'maps': [[_map_json(mm) for mm in ch] for ch in desc], 'nPositions': n_positions,
-                   'pos': [[_rat(v) for v in p] for p in pos], 'ts': ts, 'queries': queries})
+                   'pos': [_pos_components(p) for p in pos], 'ts': ts, 'queries': queries})
+
+
+def _pos_components(p):
+    """patient: one vector-valued index (x, y, z); slide: five scalar indices (col, row, x, y, z)"""
+    return [[_rat(v) for v in p]] if len(p) == 3 else [[_rat(v)] for v in p]
+
+
+def _expected_div(pos, i):
+    """Dimension Index Values written for plane i: rank among the distinct values, per indexed attribute"""
+    if len(pos[i]) == 3:
+        return [sorted(set(pos)).index(pos[i]) + 1]
+    return [sorted({p[d] for p in pos}).index(pos[i][d]) + 1 for d in range(len(pos[i]))]
 
 
 def _sel_json(sel):
@@ -248,7 +274,7 @@ def _sel_json(sel):
 def _pm_case(ctx, idx):
     r = ctx.rng('pm', idx)
     dtype = r.choice(['uint8', 'uint16', 'uint16', 'float32', 'float64'])
-    kind = r.choice(['series', 'series', 'multiframe'])
+    kind = r.choice(['series', 'series', 'multiframe', 'slide', 'slide-full'])
     ndim = r.choice([2, 3, 3, 4, 4, 4])
     n = 1 if ndim == 2 else r.choice([1, 2, 3, 3, 4, 5])
     M = r.choice([1, 2, 2, 3]) if ndim == 4 else 1
@@ -274,7 +300,12 @@ def _build_pm(ctx, d, r, shape):
     src, src_pos, cs = _sources(ctx, d['idx'], r, d['source'], d['N'], d['rows'], d['cols'])
     kw = {}
     pos = src_pos
-    if d['explicit_pos']:
+    if cs == 'SLIDE' and d['explicit_pos']:
+        cols_, rows_ = d['cols'], d['rows']
+        cells_ = r.sample([(a, b) for a in range(4) for b in range(4)], d['N'])
+        pos = [(b * cols_ + 1, a * rows_ + 1, 10.0 - 0.5 * a * rows_, 20.0 - 0.5 * b * cols_, 0.0) for a, b in cells_]
+        kw['plane_positions'] = [hd.PlanePositionSequence('SLIDE', image_position=p[2:], pixel_matrix_position=p[:2]) for p in pos]
+    elif d['explicit_pos']:
         zs = r.sample(range(-5, 12), d['N'])
         pos = [(1.0, -2.0, float(z)) for z in zs]
         if r.random() < 0.3:
@@ -365,15 +396,15 @@ def _check_pm(ctx, idx, reqs, pending):
         okp = _pos_of_item(item, cs) == tuple(pos[i])
         div = item.FrameContentSequence[0].DimensionIndexValues
         div = [int(div)] if not hasattr(div, '__len__') else [int(x) for x in div]
-        okd = div == [uniq.index(pos[i]) + 1]
+        okd = div == _expected_div(pos, i)
         labels = [m.LUTLabel for m in item.RealWorldValueMappingSequence] if 'RealWorldValueMappingSequence' in item else None
         want_labels = [m['label'] for m in desc[j]]
         okm = (labels is None and sh_labels == want_labels) if M == 1 else (labels == want_labels and sh_labels is None)
         obs('per-frame-position', okp, f'frame {f + 1}: plane position {_pos_of_item(item, cs)}, expected that of plane {i}: {pos[i]}', f)
-        obs('per-frame-dimension-index', okd, f'frame {f + 1}: DimensionIndexValues {div}, expected {[uniq.index(pos[i]) + 1]}', f)
+        obs('per-frame-dimension-index', okd, f'frame {f + 1}: DimensionIndexValues {div}, expected {_expected_div(pos, i)}', f)
         obs('per-frame-mapping', okm, f'frame {f + 1}: mappings per-frame {labels} shared {sh_labels}, expected {want_labels} '
             f'({"shared" if M == 1 else "per frame"})', f)
-        impl['perFrame'].append({'pos': [_rat(v) for v in _pos_of_item(item, cs)], 'div': div[0] if len(div) == 1 else div, 'maps': labels})
+        impl['perFrame'].append({'pos': _pos_components(_pos_of_item(item, cs)), 'div': div, 'maps': labels})
     queries = []
     # ---- file round trip
     stw, blob = _try(_written, pm)
@@ -442,7 +473,7 @@ def _check_pm(ctx, idx, reqs, pending):
                 queries.append(dict({'q': 'real', 'f': f}, **_sel_json(bad)))
                 impl['answers'].append('err' if s7 != 'ok' else 'values')
         # volume (one mapping per position, distinct positions along one direction)
-        if M == 1 and N >= 2 and not (d['explicit_pos'] and len({p[:2] for p in pos}) > 1):
+        if cs == 'PATIENT' and M == 1 and N >= 2 and not (d['explicit_pos'] and len({p[:2] for p in pos}) > 1):
             s6, vol = _try(im.get_volume, dtype=np.float64, apply_real_world_transform=False, apply_modality_transform=False,
                            apply_voi_transform=False, apply_presentation_lut=False, allow_missing_positions=True)
             if s6 != 'ok':
@@ -595,6 +626,19 @@ def _check_sc(ctx, label, dt, ba, shape, pi, ts, cs, idx, layout='c', big_values
                                             [int(sc.BitsAllocated), int(sc.BitsStored), int(sc.HighBit), int(sc.SamplesPerPixel),
                                              int(sc.PlanarConfiguration) if 'PlanarConfiguration' in sc else -1,
                                              int(sc.PixelRepresentation), str(sc.PhotometricInterpretation)])))
+    if reqs is not None and ts in NATIVE and a.dtype.kind in 'biu' and a.ndim in (2, 3) and a.size <= 3000 \
+            and a.dtype.name in ('bool', 'uint8', 'uint16', 'uint32', 'int8', 'int16', 'int32'):
+        # the whole constructor path of the model (pixel module -> encode_frame -> bytes -> pydicom decode), native only
+        reqs.append(('scBuild', {'ts': ts, 'pi': pi, 'ba': ba, 'rows': a.shape[0], 'cols': a.shape[1],
+                                 'samples': (a.shape[2] if a.ndim == 3 else None), 'dtype': a.dtype.name,
+                                 'data': np.asarray(a).astype(np.int64).reshape(-1).tolist()}))
+        if st == 'ok':
+            raw = bytes(sc.PixelData)
+            n_exp = (a.size + 7) // 8 if ba == 1 else a.size * a.dtype.itemsize
+            pending.append((case, 'sc-build', ('ok', list(raw[:n_exp + (n_exp % 2)]) if ba == 1 else list(raw[:n_exp]),
+                                               np.asarray(a).astype(np.int64).reshape(-1).tolist())))
+        else:
+            pending.append((case, 'sc-build', ('err', None, None)))
     if st != 'ok':
         codec_limit = ts in (JLS, J2KL, JPG) and ('Unable to' in sc or 'plugins' in sc or 'ModuleNotFound' in sc)
         if valid and fits and not codec_limit and not (ts == RLE and ba in (1, 12)) and not (ba == 1 and a.size % 8) \
@@ -740,6 +784,22 @@ def _compare_sc(ctx, case, impl, ans):
             ctx.disagree('L1', case, val[:6], mo, 'image pixel module attributes')
 
 
+def _compare_sc_build(ctx, case, impl, ans):
+    st, raw, data = impl
+    if 'proto_err' in ans:
+        ctx.disagree('L0', case, st, ans, 'model protocol error')
+        return
+    if (st == 'ok') != ('ok' in ans):
+        ctx.disagree('L0', case, st, ans if 'err' in ans else 'accepted', 'secondary capture: accept-vs-refuse')
+        return
+    if st == 'ok':
+        o = ans['ok']
+        if o['bytes'] != raw:
+            ctx.disagree('L1', case, raw[:32], o['bytes'][:32], 'secondary capture: pixel data bytes')
+        elif o['decoded'].get('ok') != data and case.get('pi') != 'YBR_FULL':
+            ctx.disagree('L0', case, data[:32], o['decoded'], 'secondary capture: decoded values')
+
+
 def run(ctx):
     import hd_env  # noqa: F401
     import warnings
@@ -758,6 +818,8 @@ def run(ctx):
             _compare_pm(ctx, case, impl, ans)
         elif what == 'sc-module':
             _compare_sc(ctx, case, impl, ans)
+        elif what == 'sc-build':
+            _compare_sc_build(ctx, case, impl, ans)
 
 
 def _float_witness(ctx):
